@@ -1,3 +1,6 @@
 import PyOak.Props.C04
 import PyOak.Props.C04Origin
 import PyOak.Props.C04Value
+import PyOak.Props.C04Ser
+import PyOak.Props.C04RoundTrip
+import PyOak.Props.C04Reach
